@@ -16,10 +16,10 @@ Definition path := N.
 Inductive ev :=
 | ECreate (p : path)
 | ETerminate (p : path)
-| EMetaWrite (files : list path)   (* generation number = index among the EMetaWrite events *)
+| EMetaWrite (files : list path) (opstamp : N)   (* generation number = index among the EMetaWrite events *)
 | EDelete (p : path)
 | ESyncDir
-| ECommitRet.
+| ECommitRet (opstamp : N).   (* a commit call returned Ok(opstamp) *)
 
 Inductive dirop := Link (p : path) | Unlink (p : path) | SetMeta (g : N).
 
@@ -39,7 +39,7 @@ Record cst := {
   base : ns;                     (* durable namespace as of the last directory sync *)
   pend : list dirop;             (* directory operations issued since, oldest first *)
   term : list path;              (* files whose data is complete and fsynced *)
-  gens : list (list path);       (* files referenced by each meta generation *)
+  gens : list (list path * N);   (* files referenced by each meta generation, and its opstamp *)
   returned : option N            (* generation published by the latest returned commit *)
 }.
 
@@ -47,17 +47,18 @@ Definition init : cst :=
   {| base := {| ns_files := []; ns_meta := None |}; pend := []; term := []; gens := []; returned := None |}.
 
 Definition ngen (c : cst) : N := N.of_nat (length (gens c)).
-Definition files_of (c : cst) (g : N) : list path := nth (N.to_nat g) (gens c) [].
+Definition files_of (c : cst) (g : N) : list path := fst (nth (N.to_nat g) (gens c) ([], 0)).
+Definition opstamp_of (c : cst) (g : N) : N := snd (nth (N.to_nat g) (gens c) ([], 0)).
 
 Definition cstep (c : cst) (e : ev) : cst :=
   match e with
   | ECreate p => {| base := base c; pend := pend c ++ [Link p]; term := term c; gens := gens c; returned := returned c |}
   | ETerminate p => {| base := base c; pend := pend c; term := p :: term c; gens := gens c; returned := returned c |}
-  | EMetaWrite fs => {| base := base c; pend := pend c ++ [SetMeta (ngen c)]; term := term c; gens := gens c ++ [fs]; returned := returned c |}
+  | EMetaWrite fs o => {| base := base c; pend := pend c ++ [SetMeta (ngen c)]; term := term c; gens := gens c ++ [(fs, o)]; returned := returned c |}
   | EDelete p => {| base := base c; pend := pend c ++ [Unlink p]; term := term c; gens := gens c; returned := returned c |}
   | ESyncDir => {| base := apply_all (base c) (pend c); pend := []; term := term c; gens := gens c; returned := returned c |}
-  | ECommitRet => {| base := base c; pend := pend c; term := term c; gens := gens c;
-                     returned := if N.eqb (ngen c) 0 then returned c else Some (ngen c - 1) |}
+  | ECommitRet _ => {| base := base c; pend := pend c; term := term c; gens := gens c;
+                       returned := match ns_meta (base c) with Some g => Some g | None => returned c end |}
   end.
 Definition run (t : list ev) : cst := fold_left cstep t init.
 
@@ -84,17 +85,19 @@ Definition pending_unlink (p : path) (l : list dirop) : bool :=
 
 Definition check (c : cst) (e : ev) : bool :=
   match e with
-  | EMetaWrite fs =>
+  | EMetaWrite fs _ =>
       (* D1: write new files, sync the directory, only then replace meta.json *)
       forallb (fun f => mem f (ns_files (base c)) && mem f (term c) && negb (pending_unlink f (pend c))) fs
   | EDelete p =>
       (* D3: never delete a file that a still-recoverable meta generation references *)
       forallb (fun g => negb (mem p (files_of c g))) (possible c)
-  | ECommitRet =>
-      (* D2: commit returns only when the rename that published it is durable *)
-      match pend_metas (pend c), ns_meta (base c) with
-      | [], Some g => N.eqb (g + 1) (ngen c)
-      | _, _ => false
+  | ECommitRet o =>
+      (* D2: commit returns only when the rename that published it is durable: the durable
+         meta.json carries this commit's opstamp (generations written later by merges carry the
+         same opstamp and may still be pending) *)
+      match ns_meta (base c) with
+      | Some g => N.eqb (opstamp_of c g) o
+      | None => false
       end
   | _ => true
   end.
@@ -116,7 +119,7 @@ Definition first_bad (t : list ev) : option N := first_bad_from init t 0.
 
 (* weaker discipline: D2 dropped (what the code satisfied before the sync-after-rename fix) *)
 Definition check_weak (c : cst) (e : ev) : bool :=
-  match e with ECommitRet => true | _ => check c e end.
+  match e with ECommitRet _ => true | _ => check c e end.
 Fixpoint monitor_weak_from (c : cst) (t : list ev) : bool :=
   match t with
   | [] => true
